@@ -37,6 +37,7 @@ type flatState struct {
 	vars  map[string]*types.Var // synthesized identifiers
 	order []string              // nested parameter locals in creation order: name
 	ltype map[string]string
+	nestedUsed bool             // the kernel takes nested locals as parameters
 }
 
 var flatStates = map[*fnCtx]*flatState{}
@@ -435,11 +436,13 @@ func (fc *fnCtx) extFlatParams(name string) {
 	walk(name)
 }
 
-// extNestedParams (hook, parameter assembly of genFuncM): the nested locals the body uses, after the Go parameters
-func (fc *fnCtx) extNestedParams(fd *ast.FuncDecl, params []string) []string {
+// extNestedParams (hook, parameter assembly of genFuncM): the nested locals the body uses, after the Go parameters.
+// Nested object state is READ-ONLY in this subset: a function that writes it (directly or through a method of the nested
+// object) is refused, because the written state would have to be returned through every caller.
+func (fc *fnCtx) extNestedParams(fd *ast.FuncDecl, params []string) ([]string, error) {
 	fs := fc.flat()
 	if len(fs.order) == 0 {
-		return params
+		return params, nil
 	}
 	used := map[string]bool{}
 	ast.Inspect(fd.Body, func(n ast.Node) bool {
@@ -448,13 +451,18 @@ func (fc *fnCtx) extNestedParams(fd *ast.FuncDecl, params []string) []string {
 		}
 		return true
 	})
+	assigned, _ := assignedIn(fd.Body.List)
 	for _, key := range fs.order {
+		if assigned[key] {
+			return nil, fmt.Errorf("write to nested object state %s (read-only in this subset)", key)
+		}
 		_, viaField := fc.fieldsUsed[key]
 		if used[key] || viaField {
 			params = append(params, fmt.Sprintf("(%s : %s)", key, fs.ltype[key]))
+			fs.nestedUsed = true
 		}
 	}
-	return params
+	return params, nil
 }
 
 // extResultTypes (hook, result list of genFuncM): a result of type slice-of-structs is returned as its field lists
